@@ -175,7 +175,8 @@ def spelled(name, k):
 
 def statements(schema, rows, style=0):
     '''The statement texts of an input: CREATE TABLE / ROP statements then one INSERT per row.
-    style 0 / 1: positional rows (named when a value is unset), 2 / 3: named columns in declared / reversed order and the
+    style 0 / 1: positional rows (shorter rows when the unset values are the last columns, named columns when an unset value
+    is followed by a set one), 2 / 3: named columns in declared / reversed order and the
     declared spelling, 4 / 5: named columns rotated by the row number / reversed, every column name in another letter case
     (declared, upper, lower, swapped -- cycling over rows and columns); odd styles write ids as integers and booleans as 0 / 1.'''
     out = []
@@ -186,7 +187,9 @@ def statements(schema, rows, style=0):
     types = dict((k, dict(a)) for k, a in schema.classes)
     for ri, (kind, values) in enumerate(rows):
         names = [n for n, _ in schema.attrs(kind) if values.get(n, ABSENT) != ABSENT]
-        if len(names) == len(schema.attrs(kind)) and style < 2:
+        declared = [n for n, _ in schema.attrs(kind)]
+        if style < 2 and names and names == declared[:len(names)]:
+            # positional row; unset values at the end of the column list are simply left out (a shorter positional row)
             out.append('INSERT INTO %s VALUES (%s);' % (kind, ', '.join(lit(values[n], types[kind][n], style) for n in names)))
         else:
             shown = names if style % 2 == 0 else names[::-1]
